@@ -590,6 +590,12 @@ func (c *Client) verifyLightBlock(ctx context.Context, newLightBlock *types.Ligh
 			return fmt.Errorf("can't get first light block: %w", err)
 		}
 		err = c.backwards(ctx, firstBlock.Header, newLightBlock.Header)
+		if err == nil {
+			// the hash chain vouches for the header only; the commit that is
+			// stored (and served) with it must be a commit for it
+			err = newLightBlock.ValidatorSet.VerifyCommitLight(c.chainID, newLightBlock.Commit.BlockID,
+				newLightBlock.Height, newLightBlock.Commit)
+		}
 
 	// Verifying between first and last trusted light block
 	default:
